@@ -886,6 +886,12 @@ namespace vw
         std::vector<std::size_t> base = main.graph->base_levels();
         std::vector<double> last_field;
         std::vector<double> eroded_field;  // surface after the last erode op (+ uplift), if any
+        // long-lived eroder objects: a model run keeps one eroder per process for all its time steps and
+        // changes its parameters through the setters. Two thirds of the erode operations go through these,
+        // the others build a fresh eroder (declared after `main`: destroyed before the graph and the grid)
+        std::unique_ptr<fs::spl_eroder<graph_t>> kept_spl;
+        using kept_diff_t = std::conditional_t<fs::is_raster_grid<G>::value, fs::diffusion_adi_eroder<G>, int>;
+        std::unique_ptr<kept_diff_t> kept_diff;
         std::vector<std::set<std::size_t>> base_sets;  // base-level sets seen so far
         arr_t persistent_in;                            // the caller's long-lived input array (reuse_input)
         Obs last_obs;
@@ -1162,10 +1168,37 @@ namespace vw
                         n_exp = 1.0;
                     std::vector<double> ero(n, 0.0);
                     bool done = false;
+                    const bool keep_eroder = (h.b + h.c) % 3 != 0;  // derived from the operation's own arguments: no extra draw
                     if (h.a < 2)
                     {
                         arr_t area = main.graph->accumulate(1.0);
-                        if (h.a == 0)
+                        arr_t karr = arr_t::from_shape(main.grid->shape());
+                        for (std::size_t i = 0; i < n; ++i)
+                            karr.flat(i) = kc * (1.0 + static_cast<double>(i % 3));
+                        if (keep_eroder)
+                        {
+                            if (!kept_spl)
+                            {
+                                if (h.a == 0)
+                                    kept_spl = std::make_unique<fs::spl_eroder<graph_t>>(*main.graph, kc, m_exp, n_exp, 1e-3);
+                                else
+                                    kept_spl = std::make_unique<fs::spl_eroder<graph_t>>(*main.graph, karr, m_exp, n_exp, 1e-3);
+                            }
+                            else
+                            {
+                                if (h.a == 0)
+                                    kept_spl->set_k_coef(kc);
+                                else
+                                    kept_spl->set_k_coef(karr);
+                                kept_spl->set_area_exp(m_exp);
+                                kept_spl->set_slope_exp(n_exp);
+                                ++C["p.erode_on_reused_eroder"];
+                            }
+                            const auto& e = kept_spl->erode(elev, area, dt);
+                            for (std::size_t i = 0; i < n; ++i)
+                                ero[i] = e.flat(i);
+                        }
+                        else if (h.a == 0)
                         {
                             fs::spl_eroder<graph_t> er(*main.graph, kc, m_exp, n_exp, 1e-3);
                             const auto& e = er.erode(elev, area, dt);
@@ -1174,9 +1207,6 @@ namespace vw
                         }
                         else
                         {
-                            arr_t karr = arr_t::from_shape(main.grid->shape());
-                            for (std::size_t i = 0; i < n; ++i)
-                                karr.flat(i) = kc * (1.0 + static_cast<double>(i % 3));
                             fs::spl_eroder<graph_t> er(*main.graph, karr, m_exp, n_exp, 1e-3);
                             const auto& e = er.erode(elev, area, dt);
                             for (std::size_t i = 0; i < n; ++i)
@@ -1191,7 +1221,31 @@ namespace vw
                         {
                             if (gs.rows >= 3 && gs.cols >= 3)
                             {
-                                if (h.a == 2)
+                                if (keep_eroder)
+                                {
+                                    arr_t karr = arr_t::from_shape(main.grid->shape());
+                                    for (std::size_t i = 0; i < n; ++i)
+                                        karr.flat(i) = kc * (1.0 + static_cast<double>(i % 4));
+                                    if (!kept_diff)
+                                    {
+                                        if (h.a == 2)
+                                            kept_diff = std::make_unique<kept_diff_t>(*main.grid, kc);
+                                        else
+                                            kept_diff = std::make_unique<kept_diff_t>(*main.grid, karr);
+                                    }
+                                    else
+                                    {
+                                        if (h.a == 2)
+                                            kept_diff->set_k_coef(kc);
+                                        else
+                                            kept_diff->set_k_coef(karr);
+                                        ++C["p.erode_on_reused_eroder"];
+                                    }
+                                    const auto& e = kept_diff->erode(elev, dt);
+                                    for (std::size_t i = 0; i < n; ++i)
+                                        ero[i] = e.flat(i);
+                                }
+                                else if (h.a == 2)
                                 {
                                     fs::diffusion_adi_eroder<G> er(*main.grid, kc);
                                     const auto& e = er.erode(elev, dt);
